@@ -4,10 +4,9 @@ import TruthModel.Model.FilesEcl
 C16 at container level — any binary input ends in success or a diagnostic, never a crash.
 For EVERY byte string presented as a MSG, STD (both layouts), mission MSG or old ECL file:
 
-* `msg_read_no_panic`, `std_read_no_panic`, `mission_read_no_panic`: the model of the reader never
-  reaches a panic arm;  old ECL: `ecl_read_panic_site` (the only reachable panic is the
-  `num_timelines -= 1` underflow of the TH07-style timeline array), `ecl_read_no_panic_partial`,
-  and the witness `ecl_read_panics_witness` (a genuine defect of the current reader);
+* `msg_read_no_panic`, `std_read_no_panic`, `mission_read_no_panic`, `ecl_read_no_panic`: the model of
+  the reader never reaches a panic arm (old ECL: since 8c247ce; `ecl_read_formerly_panicking_input` is
+  the witness of the repaired `num_timelines -= 1` underflow, now a diagnostic);
 * `msg_read_total`, `std_read_total`, `mission_read_total`, `ecl_read_total`: the result is a file or one
   of an explicit list of diagnostics — in particular never the internal "fuel" diagnostic, i.e. the
   fuel handed to the `while` loops (input length + 1) always suffices;
@@ -782,7 +781,7 @@ theorem mission_read_total (decOk : Bytes → Bool) (fmt : MissionFmt) (bs : Byt
 
 /-! ## old ECL -/
 
-def eclReadErrs : List String := [eofErr, badSize, readPastEnd, badMagic, timelineAfterNull]
+def eclReadErrs : List String := [eofErr, badSize, readPastEnd, badMagic, timelineAfterNull, emptyTimelineTable]
 
 local macro "ecl_leaf" : tactic =>
   `(tactic| (intro h; first | (cases h; done) | (injection h with h; subst h; simp only [eclReadErrs, List.mem_cons, true_or, or_true]; done)))
@@ -797,6 +796,12 @@ theorem eclAfterMagic_err (fmt : EclFmt) (bs : Bytes) : ErrIn eclReadErrs (eclAf
   unfold eclAfterMagic
   repeat' split
   all_goals ecl_leaf
+
+/-- `num_timelines.checked_sub(1)`: an error, not an underflow (8c247ce) -/
+theorem eclNumTimelines_no_panic (kind : TlKind) (n : Nat) : (eclNumTimelines kind n).isPanic = false := by
+  unfold eclNumTimelines
+  repeat' split
+  all_goals rfl
 
 theorem eclNumTimelines_err (kind : TlKind) (n : Nat) : ErrIn eclReadErrs (eclNumTimelines kind n) := by
   intro c
@@ -832,54 +837,22 @@ theorem readScriptsAt_err (f : Fmt) (file : Bytes) : ∀ (offs : List Nat) (acc 
       exact ErrIn.mono (readInstrs_err _ _) (by intro c hc; simp only [instrReadErrs, List.mem_cons, List.not_mem_nil, or_false] at hc; rcases hc with rfl | rfl | rfl <;> simp [eclReadErrs]) _ hq
     · intro c h; cases h
 
-def eclUnderflow : String := "src/formats/ecl/ecl_06.rs: attempt to subtract with overflow"
-
-/-- The only reachable panic of `read_olde_ecl`: `num_timelines -= 1` in the games with a
-fixed-size timeline array whose last used entry is the end of the file (TH07, TH08, TH095), when
-the array starts with a zero offset. -/
-theorem ecl_read_panic_site (fmt : EclFmt) (bs : Bytes) (s : String) (h : readEcl fmt bs = .panic s) :
-    s = eclUnderflow ∧ ∃ cap, fmt.kind = .pcb cap := by
-  unfold readEcl at h
-  repeat' split at h
+/-- **old ECL: `read_olde_ecl` ends in a file or a diagnostic for EVERY byte string**, every game
+(TH06-TH095) and in fact every format description.  Before 8c247ce the model had one reachable panic
+(`num_timelines -= 1`, TH07/TH08/TH095, timeline array starting with a zero offset). -/
+theorem ecl_read_no_panic (fmt : EclFmt) (bs : Bytes) : (readEcl fmt bs).isPanic = false := by
+  unfold readEcl
+  repeat' split
   all_goals first
-    | (cases h; done)
-    | (rename_i h'; exact absurd h' (ne_panic_of (eclAfterMagic_no_panic _ _) _))
-    | (rename_i h'; exact absurd h' (ne_panic_of (readScriptsAt_no_panic _ _ _ _) _))
-    | skip
-  all_goals
-    rename_i h'
-    injection h with h
-    subst h
-    unfold eclNumTimelines at h'
-    split at h'
-    · split at h'
-      · injection h' with h'; exact ⟨h'.symm, _, ‹_›⟩
-      · cases h'
-    · cases h'
+    | rfl
+    | (rename_i h; exact absurd h (ne_panic_of (eclAfterMagic_no_panic _ _) _))
+    | (rename_i h; exact absurd h (ne_panic_of (eclNumTimelines_no_panic _ _) _))
+    | (rename_i h; exact absurd h (ne_panic_of (readScriptsAt_no_panic _ _ _ _) _))
 
-/-- `read_olde_ecl` never panics for TH06 and TH09 (no `- 1` on the timeline count). -/
-theorem ecl_read_no_panic_partial (fmt : EclFmt) (bs : Bytes) (hk : ∀ cap, fmt.kind ≠ .pcb cap) :
-    (readEcl fmt bs).isPanic = false := by
-  cases h : readEcl fmt bs with
-  | ok _ => rfl
-  | err _ => rfl
-  | panic s =>
-    obtain ⟨_, cap, hc⟩ := ecl_read_panic_site fmt bs s h
-    exact absurd hc (hk cap)
-
-/-- the full statement: FALSE of the current reader (`ecl_read_no_panic_full_false`) -/
-def ecl_read_no_panic_full : Prop := ∀ (fmt : EclFmt) (bs : Bytes), (readEcl fmt bs).isPanic = false
-
-/-- **Witness** (replayed on the implementation: `truecl decompile -g 7` on 68 zero bytes panics at
-ecl_06.rs:490): a TH07 ECL file whose timeline table starts with a zero offset. -/
-theorem ecl_read_panics_witness : readEcl eclTh07 (List.replicate 68 0) = .panic eclUnderflow := by
+/-- the input that made the unrepaired reader panic (68 zero bytes as a TH07 ECL file; replayed on the
+implementation: `truecl decompile -g 7` now prints "timeline table has no entries ..." and exits 1) -/
+theorem ecl_read_formerly_panicking_input : readEcl eclTh07 (List.replicate 68 0) = .err emptyTimelineTable := by
   decide
-
-theorem ecl_read_no_panic_full_false : ¬ ecl_read_no_panic_full := by
-  intro h
-  have := h eclTh07 (List.replicate 68 0)
-  rw [ecl_read_panics_witness] at this
-  cases this
 
 theorem ecl_read_err (fmt : EclFmt) (bs : Bytes) : ErrIn eclReadErrs (readEcl fmt bs) := by
   intro c
@@ -891,16 +864,10 @@ theorem ecl_read_err (fmt : EclFmt) (bs : Bytes) : ErrIn eclReadErrs (readEcl fm
     | (rename_i hq; intro h; injection h with h; subst h; exact eclNumTimelines_err _ _ _ hq)
     | (rename_i hq; intro h; injection h with h; subst h; exact readScriptsAt_err _ _ _ _ _ hq)
 
-/-- **old ECL: every byte string gives a file, one of five diagnostics, or the one panic above.** -/
+/-- **old ECL: every byte string gives a file or one of six diagnostics.** -/
 theorem ecl_read_total (fmt : EclFmt) (bs : Bytes) :
-    (∃ e, readEcl fmt bs = .ok e) ∨ (∃ c ∈ eclReadErrs, readEcl fmt bs = .err c) ∨
-      (readEcl fmt bs = .panic eclUnderflow ∧ ∃ cap, fmt.kind = .pcb cap) := by
-  cases h : readEcl fmt bs with
-  | ok e => exact .inl ⟨e, rfl⟩
-  | err c => exact .inr (.inl ⟨c, ecl_read_err fmt bs c h, rfl⟩)
-  | panic s =>
-    obtain ⟨rfl, hc⟩ := ecl_read_panic_site fmt bs s h
-    exact .inr (.inr ⟨rfl, hc⟩)
+    (∃ e, readEcl fmt bs = .ok e) ∨ ∃ c ∈ eclReadErrs, readEcl fmt bs = .err c :=
+  total_of (ecl_read_no_panic fmt bs) (ecl_read_err fmt bs)
 
 /-! ## allocation: what a reader builds is bounded by its input -/
 
